@@ -1,7 +1,7 @@
 """C15 — GameCube/Wii pack archive: builder and parser agree on the record layout; 32-byte alignment."""
 import re
 from mir import fmt, walk, strip_refs, norm, callee_names, call_target
-from binser import for_loops, enclosing_loops, rpo_index, root_of, affine, fmt_affine, len_atom, mutations_of
+from binser import deep, for_loops, enclosing_loops, rpo_index, root_of, affine, fmt_affine, len_atom, mutations_of
 from flow import enum_paths, PathLimit
 
 EXPLANATION = ("Builder emission sequence (header and per-entry record) and parser read sequence are extracted from the "
@@ -36,7 +36,17 @@ def emission(nv, out_root, idx, loops):
                 m = re.search(r"impl (\w+)>::to_(be|le)_bytes$", be[0][1])
                 d.update(kind="int", width=WIDTH.get(m.group(1)), endian=m.group(2), value=be[0][2][0], ty=m.group(1))
             else:
-                d.update(kind="bytes", width=None, value=v, root=root_of(v))
+                zc = strip_refs(v)
+                while zc[0] == "cast":
+                    zc = strip_refs(zc[1])
+                if zc[0] == "const" and isinstance(zc[1], (bytes, bytearray)) and not any(zc[1]):
+                    d.update(kind="pad", width=len(zc[1]), value=("const", 0, "u8"))      # extend_from_slice(&[0; k])
+                elif zc[0] == "agg" and zc[1] == "array" and zc[4] and all(x[:2] == ("const", 0) for x in zc[4]):
+                    d.update(kind="pad", width=len(zc[4]), value=("const", 0, "u8"))
+                elif zc[0] == "repeat" and zc[1][:2] == ("const", 0) and isinstance(zc[2], int):
+                    d.update(kind="pad", width=zc[2], value=("const", 0, "u8"))
+                else:
+                    d.update(kind="bytes", width=None, value=v, root=root_of(v))
         else:
             d.update(kind="other:" + sh, width=None, value=None)
         evs.append(d)
@@ -115,6 +125,8 @@ def run(facts, rep, ctx):
         magic_w = header[0]["value"]
         pad = sum(e["width"] or 0 for e in header[2:])
         hsize = header[0]["width"] + header[1]["width"] + pad
+        if any(e["width"] is None for e in header[2:]):
+            hsize = None
         pmagic = None
         for p in (enum_paths(par) if True else []):
             for (bb, term, vals, neg, dty) in p.conds:
@@ -139,9 +151,20 @@ def run(facts, rep, ctx):
                 a = par.term_of_operand(t["args"][1])
                 if a[0] == "const":
                     ppos = a[1]
-        if ppos == hsize:
+        if ppos is None:
+            # e.g. `set_position(BASE_HEADER_SIZE as u64)`: a named constant behind a cast
+            for bb, t in par.calls():
+                if (callee_names(t)[1] or "").endswith("Cursor::<T>::set_position") and not enclosing_loops(ploops, bb):
+                    a = strip_refs(par.term_of_operand(t["args"][1]))
+                    while a[0] == "cast":
+                        a = strip_refs(a[1])
+                    if a[0] == "const" and isinstance(a[1], int):
+                        ppos = a[1]
+        if ppos == hsize and hsize is not None:
             rep.ok(R1, {"header": "padding", "header_size": hsize})
             rep.ok(R2, {"header_size": hsize, "parser_position": ppos})
+        elif ppos is None or hsize is None:
+            rep.inconc(R2, "header size / parser start position not recognised (%s, %s)" % (hsize, ppos))
         else:
             rep.violation(R2, par.name, "header-size", "builder's header is %s bytes, parser starts reading records at %s" % (hsize, ppos), "%s:%s" % (par.file, par.line))
     else:
@@ -158,21 +181,57 @@ def run(facts, rep, ctx):
             wseq.append(("int", e["width"], e["endian"], e["value"]))
         else:
             wseq.append((e["kind"], e["width"], None, None))
-    # roles of the builder's values
+    # roles of the builder's values: which collection the value is an element of, and what was pushed into it
+    def collection_kind(root):
+        """'names' for the vector of running name offsets, 'file_info' for the vector of (address, size) records"""
+        if not root or root[0] != "local":
+            return None
+        for bb, sh, args, t in mutations_of(nv, root[1]):
+            if sh != "push":
+                continue
+            v = args[1]
+            if v[0] == "agg" and len(v[4]) == 2:
+                return "file_info"
+            if affine(v, nv) is not None:
+                return "names"
+        return None
+
     def role(v):
         if v is None:
             return "pad"
-        s = fmt(norm(v))
-        for x in walk(v):
-            if x[0] == "local":
-                d = nv.definition(x[1]) if len(nv.defs().get(x[1], [])) == 1 else None
-                if d is not None and any(y[0] == "field" and isinstance(y[3], int) for y in walk(d)):
-                    fi = [y[3] for y in walk(d) if y[0] == "field" and isinstance(y[3], int) and y[1][0] != "downcast"]
-                    return "file_info.%d" % fi[0] if fi else "?"
-            if x[0] == "call" and "ops::Index" in x[1]:
-                r = root_of(x[2][0])
-                if r and r[0] == "local":
-                    return "names[%s]" % nv.local_name(r[1])
+        t = deep(nv, v, stop=tuple(l for l in range(len(nv.locals)) if nv.local_ty(l).startswith("std::vec::Vec<") or nv.local_ty(l).startswith("indexmap::")))
+        fields = []
+        for _ in range(24):
+            t = strip_refs(t)
+            if t[0] == "cast":
+                t = t[1]
+            elif t[0] == "field" and isinstance(t[3], int):
+                fields.append(t[3])
+                t = t[1]
+            elif t[0] == "downcast":
+                t = t[1]
+            elif t[0] == "call" and t[1].endswith("ops::Deref>::deref") and t[2]:
+                t = t[2][0]
+            else:
+                break
+        fields.reverse()          # outermost container first
+        root = None
+        if t[0] == "call" and "ops::Index" in t[1] and t[2]:
+            root = root_of(t[2][0])
+        elif t[0] == "call" and t[1].endswith("::next") and t[2]:
+            if fields and fields[0] == 0:
+                fields = fields[1:]          # the payload of Some(..)
+            zips = [x for x in walk(t) if x[0] == "call" and x[1].endswith("Iterator::zip") and len(x[2]) == 2]
+            if zips and fields:
+                root = root_of(zips[0][2][fields[0]]) if fields[0] in (0, 1) else None
+                fields = fields[1:]
+            elif not zips:
+                root = root_of(t[2][0])
+        kind = collection_kind(root)
+        if kind == "names":
+            return "names[%s]" % nv.local_name(root[1])
+        if kind == "file_info":
+            return "file_info.%d" % fields[0] if fields and fields[0] in (0, 1) else "?"
         return "?"
     roles = [role(w[3]) if w[0] == "int" else "pad" for w in wseq]
     want_fields = {"pad": None}
@@ -182,7 +241,9 @@ def run(facts, rep, ctx):
             pw = r["width"]
             if w[1] != pw or (w[0] == "int" and w[2] != r["endian"]):
                 good = False
-    if not good:
+    if not good and (any(w[1] is None for w in wseq) or not rec_reads or any(w[0] not in ("pad", "int") for w in wseq)):
+        rep.inconc(R1, "record layout not recognised: builder emits per entry %s, parser reads %s" % (wrec, prec))
+    elif not good:
         rep.violation(R1, ser.name, "record-shape", "builder emits per entry %s, parser reads %s" % (wrec, prec), wh)
     else:
         expect = [("pad", None), ("names", "name_address"), ("file_info.0", "file_address"), ("file_info.1", "file_size_unpadded")]
@@ -191,6 +252,8 @@ def run(facts, rep, ctx):
             okk = (rl.startswith(wrole) if wrole != "pad" else rl == "pad") and got_field == pfield
             if okk:
                 rep.ok(R1, {"record_field": i, "builder": rl, "parser": got_field, "width": wseq[i][1], "endian": wseq[i][2]})
+            elif rl == "?" or got_field is None:
+                rep.inconc(R1, "record word %d: role of the written value / parsed field not recognised (%s, %s)" % (i, rl, got_field))
             else:
                 rep.violation(R1, ser.name, "record-field-%d" % i, "record word %d: builder writes %s, parser stores it as %s (specified: %s / %s)" % (i, rl, got_field, wrole, pfield), wh)
     # ---- R15.2 record size constant ---------------------------------------------------------------
@@ -210,10 +273,14 @@ def run(facts, rep, ctx):
         base = hl[1][1]
         if coeff == per_entry == stride:
             rep.ok(R2, {"record_size": coeff})
+        elif any(w[1] is None for w in wseq) or not wseq or not rec_reads:
+            rep.inconc(R2, "bytes appended per entry / consumed per record not recognised (%s, %s)" % (per_entry, stride))
         else:
             rep.violation(R2, ser.name, "record-size", "header length counts %s bytes per entry, builder appends %s, parser consumes %s" % (coeff, per_entry, stride), wh)
         if hsize is not None and base == hsize:
             rep.ok(R2, {"base_header": base})
+        elif hsize is None:
+            rep.inconc(R2, "size of the fixed header emitted by the builder not recognised")
         else:
             rep.violation(R2, ser.name, "base-header", "header length assumes a %s-byte base header, builder emits %s" % (base, hsize), wh)
     # ---- R15.3 addresses --------------------------------------------------------------------------------
@@ -237,6 +304,9 @@ def run(facts, rep, ctx):
                         ks = {k: c for k, c in a[0].items()}
                         la = [k for k in ks if len_atom(k) == text_root]
                         good_name = (len(la) == 1 and ks[la[0]] == 1 and a[1] == hl[1][1] and len(ks) == 2)
+                        is_names_vec = any(r_ == "names[%s]" % nv.local_name(l) for r_ in roles)
+                        if not good_name and (text_root is None or (not la and not is_names_vec)):
+                            good_name = None      # not the name-address push, or the text buffer was not identified
                         # recorded before the name is appended
                         ext = [bb2 for bb2, sh2, a2, t2 in mutations_of(nv, text_root[1]) if sh2 in ("extend", "extend_from_slice") and enclosing_loops(loops, bb2) == enclosing_loops(loops, bb)] if text_root else []
                         if ext and idx.get(bb, 0) > idx.get(ext[0], 0):
